@@ -405,7 +405,7 @@ def generate(src: Path) -> dict:
         print(f"interrupt2lean: CANNOT TRANSLATE: {e}")
         msg = str(e).replace("-/", "- /")
         return {"Interrupt.lean": "-- GENERATED by translator/interrupt2lean.py â€” TRANSLATION FAILED\n"
-                f"/- {msg} -/\nimport Asynkit.Model.KernelPrims\nnamespace Asynkit.Gen\n"
+                f"/- {msg} -/\nimport Asynkit.Model.KernelPrims\nnamespace Asynkit.Gen.Intr\n"
                 "def taskThrow := unsupported_python_construct_see_comment_above\nend Asynkit.Gen\n"}
 
 
@@ -456,7 +456,7 @@ def _generate(src: Path) -> dict:
 -- src/asynkit/scheduling.py â€” do not edit
 import Asynkit.Model.KernelPrims
 set_option linter.unusedVariables false
-namespace Asynkit.Gen
+namespace Asynkit.Gen.Intr
 open Asynkit.Kernel
 
 /-- `scheduling._task_reinsert(loop, task, pos)` -/
@@ -474,7 +474,7 @@ def taskThrow (s : State) (task : TaskId) (exception : Exc) : Except (ThrowErr Ã
 /-- `interrupt.task_interrupt(task, exception)` up to its first suspension -/
 def taskInterruptPrefix (s : State) (task : TaskId) (exception : Exc) : Except (ThrowErr Ã— State) (State Ã— Susp) :=
 {intr}
-end Asynkit.Gen
+end Asynkit.Gen.Intr
 """
     return {"Interrupt.lean": text}
 
